@@ -359,6 +359,12 @@ def check_oracles(sh, pat, known, res, base):
 
 
 # ------------------------------------------------------------------------------------------------ model side
+def setop_with_star(ast):
+    has_setop = any(isinstance(n, list) and n and n[0] == "setop" for n in G._walk(ast))
+    has_star = any(isinstance(n, list) and n and n[0] == "star" for n in G._walk(ast))
+    return has_setop and has_star
+
+
 def model_request(sh, md, rev_star=0):
     """targeted shapes carry their AST; random statements are qualified by Lean itself (`qualify` answers the model's result for the
     qualified statement in `qout`)"""
@@ -503,8 +509,11 @@ def run(chk):
             if st.c["oracles-hold"] % 300 == 1:
                 chk.sample({"sql": sh["sql"], "metadata": j["md"], "provider": j["provider"],
                             "pairs": pairs(res) if "result" in res else res})
-        # correspondence with the model
-        if "result" in res:
+        # correspondence with the model (random statements that combine a set operation with a wildcard item are outside the model's
+        # verified column-level fragment: table level only, see C02)
+        if "result" in res and sh.get("orig_ast") is not None and setop_with_star(sh["orig_ast"]):
+            st.c["model:skipped(setop+star)"] += 1
+        elif "result" in res:
             a = mans[midx[canon_json(model_request(sh, j["md"]))]]
             mp = c02.model_paths(a)
             ip = res["result"]["paths"]
